@@ -333,6 +333,29 @@ func planC12(tier string, root *simcore.RNG) *plan {
 				Sites: map[string]uint32{"close": 1, "prod": 16}, Sched: Sched{Policy: "fifo"}, Env: genEnv(r), Note: "failure-then-slow-producer", StepCap: 4000000})
 		}
 	}
+	// part 1j: a model object that has been used before the render (an earlier, much finer
+	// render or a preview): caches and tables that stop growing, or change their ways, at
+	// a limit of 2^16 .. 2^20 / 10^6 entries must not stop the render from returning
+	{
+		warms := []int{1<<20 + 7, 1<<16 + 7}
+		if thorough {
+			warms = []int{1<<20 + 7, 1<<16 + 7, 1<<18 + 7, 1000003, 1<<21 + 7, 100003}
+		}
+		for i, w := range warms {
+			for _, e := range []struct{ kind, model, sink string }{{"mcu", "cache-extrude", "stl"}, {"mco", "cache-extrude-rot", "tri"}, {"msq", "cache-poly", "dxf"}} {
+				if !thorough && i > 0 && e.kind != "mcu" {
+					continue
+				}
+				r := root.Fork()
+				j := Job{ID: 1, Kind: e.kind, Sink: e.sink, Model: e.model, Cells: 10 + r.Intn(8), Warm: w}
+				if e.kind == "msq" {
+					j.Cells = 40 + r.Intn(40)
+				}
+				pl.scenarios = append(pl.scenarios, &Scenario{Prop: "C12", Family: "fault", Seed: r.Uint64(), Groups: [][]Job{{j}},
+					Sites: map[string]uint32{"close": 1, "go.start": 1, "worker.start": 1}, Sched: Sched{Policy: pick(r, []string{"fifo", "uniform"}), Seed: r.Uint64()}, Env: genEnv(r), Note: "resolution-sweep", StepCap: 4000000})
+			}
+		}
+	}
 	// part 1b: a failing sink next to healthy renders in the same process
 	// (they share the worker pool and the evaluation channel)
 	npairs := 40
